@@ -704,7 +704,7 @@ class Cluster:
         self.nodes = {}
         self.by_identifier = {}
         self.extra_hosts = {}
-        self.cuts = set()             # frozenset({a,b}) pairs that cannot talk
+        self.cuts = set()             # (a, b): no transport from a to b (directed)
         self.wirelog = []             # (seq, kind, src, dst, info...)
         self.errors = []              # internal errors observed (C16)
         self.criticals = []           # other critical log records (informative)
@@ -773,7 +773,7 @@ class Cluster:
     def reachable(self, src, dst):
         if not self.nodes[dst].alive:
             return False
-        if src != dst and frozenset((src, dst)) in self.cuts:
+        if src != dst and (src, dst) in self.cuts:
             return False
         return True
 
@@ -940,12 +940,17 @@ class Cluster:
         self.boot(name)
 
     def cut(self, a, b):
-        self.cuts.add(frozenset((a, b)))
+        """No transport from a to b (one direction)."""
+        self.cuts.add((a, b))
         self.wire('cut', a, b)
 
     def heal(self, a, b):
-        self.cuts.discard(frozenset((a, b)))
+        self.cuts.discard((a, b))
         self.wire('heal', a, b)
+
+    def partition(self, a, b):
+        self.cut(a, b)
+        self.cut(b, a)
 
     # -- XML-RPC client side (a user) ---------------------------------------------------------------------------
     def rpc(self, name, method, *args, ns='supvisors'):
